@@ -1,4 +1,4 @@
-package main
+package hlib
 
 import (
 	"bytes"
@@ -15,7 +15,7 @@ import (
 	"github.com/DemoHn/Zn/pkg/value"
 )
 
-func runesOf(s string) []int {
+func RunesOf(s string) []int {
 	res := []int{}
 	for _, c := range []rune(s) {
 		res = append(res, int(c))
@@ -23,7 +23,7 @@ func runesOf(s string) []int {
 	return res
 }
 
-func strOfCps(v interface{}) string {
+func StrOfCps(v interface{}) string {
 	// accepts either a JSON string or a list of code points
 	switch x := v.(type) {
 	case string:
@@ -38,7 +38,7 @@ func strOfCps(v interface{}) string {
 	return ""
 }
 
-func runesOfCps(v interface{}) []rune {
+func RunesOfCps(v interface{}) []rune {
 	switch x := v.(type) {
 	case string:
 		return []rune(x)
@@ -52,7 +52,7 @@ func runesOfCps(v interface{}) []rune {
 	return []rune{}
 }
 
-func unhex(s string) []byte {
+func Unhex(s string) []byte {
 	b, err := hex.DecodeString(s)
 	if err != nil {
 		panic("bad hex")
@@ -60,10 +60,10 @@ func unhex(s string) []byte {
 	return b
 }
 
-// captureStdout runs f with os.Stdout redirected into a buffer.
+// CaptureStdout runs f with os.Stdout redirected into a buffer.
 var captureMu sync.Mutex
 
-func captureStdout(f func()) string {
+func CaptureStdout(f func()) string {
 	captureMu.Lock()
 	defer captureMu.Unlock()
 	rd, wr, err := os.Pipe()
@@ -90,9 +90,9 @@ func captureStdout(f func()) string {
 	return buf.String()
 }
 
-// dumpValue renders an element as a type-tagged tree.
+// DumpValue renders an element as a type-tagged tree.
 // numbers: IEEE bit pattern (all NaNs canonicalised); text: code points.
-func dumpValue(e r.Element, depth int) interface{} {
+func DumpValue(e r.Element, depth int) interface{} {
 	if e == nil {
 		return map[string]interface{}{"t": "nil"}
 	}
@@ -113,37 +113,37 @@ func dumpValue(e r.Element, depth int) interface{} {
 		if f != f {
 			bits = 0x7FF8000000000000
 		}
-		return map[string]interface{}{"t": "num", "bits": bits2str(bits)}
+		return map[string]interface{}{"t": "num", "bits": Bits2Str(bits)}
 	case *value.String:
-		return map[string]interface{}{"t": "str", "v": runesOf(v.GetValue())}
+		return map[string]interface{}{"t": "str", "v": RunesOf(v.GetValue())}
 	case *value.Array:
 		items := []interface{}{}
 		for _, it := range v.GetValue() {
-			items = append(items, dumpValue(it, depth+1))
+			items = append(items, DumpValue(it, depth+1))
 		}
 		return map[string]interface{}{"t": "list", "v": items}
 	case *value.HashMap:
 		items := []interface{}{}
 		m := v.GetValue()
 		for _, k := range v.GetKeyOrder() {
-			items = append(items, []interface{}{runesOf(k), dumpValue(m[k], depth+1)})
+			items = append(items, []interface{}{RunesOf(k), DumpValue(m[k], depth+1)})
 		}
 		return map[string]interface{}{"t": "dict", "v": items, "maplen": len(m)}
 	case *value.Object:
-		return map[string]interface{}{"t": "obj", "cls": runesOf(v.GetObjectName())}
+		return map[string]interface{}{"t": "obj", "cls": RunesOf(v.GetObjectName())}
 	case *value.Function:
 		return map[string]interface{}{"t": "func"}
 	case *value.ClassModel:
-		return map[string]interface{}{"t": "class", "cls": runesOf(v.GetName())}
+		return map[string]interface{}{"t": "class", "cls": RunesOf(v.GetName())}
 	case *value.Exception:
-		return map[string]interface{}{"t": "exc", "msg": runesOf(v.Message)}
+		return map[string]interface{}{"t": "exc", "msg": RunesOf(v.Message)}
 	case *value.GoValue:
 		return map[string]interface{}{"t": "go", "tag": v.GetTag()}
 	}
 	return map[string]interface{}{"t": "other"}
 }
 
-func bits2str(b uint64) string {
+func Bits2Str(b uint64) string {
 	const hexd = "0123456789abcdef"
 	out := make([]byte, 16)
 	for i := 15; i >= 0; i-- {
@@ -153,8 +153,8 @@ func bits2str(b uint64) string {
 	return string(out)
 }
 
-// dumpError classifies an error returned by the interpreter.
-func dumpError(err error) map[string]interface{} {
+// DumpError classifies an error returned by the interpreter.
+func DumpError(err error) map[string]interface{} {
 	res := map[string]interface{}{}
 	inner, vm := exec.VerifUnwrapError(err)
 	res["display"] = exec.DisplayError(err)
@@ -177,11 +177,11 @@ func dumpError(err error) map[string]interface{} {
 		res["code"] = int(e.SigType)
 	case *value.Exception:
 		res["class"] = "goexception"
-		res["msg"] = runesOf(e.Message)
+		res["msg"] = RunesOf(e.Message)
 	default:
 		if inner != nil {
 			res["class"] = "other"
-			res["msg"] = runesOf(inner.Error())
+			res["msg"] = RunesOf(inner.Error())
 		} else {
 			res["class"] = "nilerr"
 		}
@@ -193,7 +193,7 @@ func dumpError(err error) map[string]interface{} {
 	return res
 }
 
-func sortedKeys(m map[string]interface{}) []string {
+func SortedKeys(m map[string]interface{}) []string {
 	ks := []string{}
 	for k := range m {
 		ks = append(ks, k)
